@@ -19,10 +19,14 @@ func init() {
 	subGens["msg:C01"] = func(r *rand.Rand, n int) []string { return genMsg(r, n, "roundtrip") }
 	subGens["msg:C02"] = func(r *rand.Rand, n int) []string { return genMsg(r, n, "tamper-auth") }
 	subGens["msg:C03"] = func(r *rand.Rand, n int) []string { return genMsg(r, n, "tamper-enc") }
-	subGens["msg:C04"] = func(r *rand.Rand, n int) []string { return genMsg(r, n, "foreign") }
-	subGens["msg:C05"] = func(r *rand.Rand, n int) []string { return genMsg(r, n, "alg") }
-	subGens["msg:C06"] = func(r *rand.Rand, n int) []string { return genMsg(r, n, "nonce") }
-	subGens["msg:C09"] = func(r *rand.Rand, n int) []string { return genMsg(r, n, "reencode") }
+	subGens["msg:C04"] = func(r *rand.Rand, n int) []string {
+		return append(genMsgForeign(r, n), genMsg(r, n/2, "roundtrip")...)
+	}
+	subGens["msg:C05"] = genMsgAlg
+	subGens["msg:C06"] = genMsgNonce
+	subGens["msg:C09"] = func(r *rand.Rand, n int) []string {
+		return append(genMsg(r, n, "reencode"), genMsgForeign(r, n/2)...)
+	}
 }
 
 // ---- recording wrappers: expose the bytes handed to the primitives without any hook in the library
